@@ -170,6 +170,15 @@ def body_E1(ctx):
         return {"payload": e.payload}
 
     register_exception_extractor(AppError, extractor)
+    if sh.get("xchain"):
+        # a second extractor, for the class of the exception the first one fails with (IOError):
+        # it may fail as well, while the report about the first failure is being written
+        def extractor_of_failures(e):
+            if faults.maybe("extractor of the extractor's failure"):
+                raise mkexc("second extractor")
+            return {"errno": getattr(e, "errno", None)}
+
+        register_exception_extractor(OSError, extractor_of_failures)
 
     class Flaky(object):
         calls = 0
@@ -294,7 +303,9 @@ def body_E1(ctx):
             ctx.fail("log_call swallowed the application's exception")
 
     kinds = [k_log_message, k_action_log, k_message_old, k_typed_message, k_with_ok, k_with_raise, k_typed_action, k_explicit_finish, k_traceback, k_log_call]
-    if sh.get("only_kinds"):
+    if sh.get("xchain"):
+        kinds = [k_with_raise, k_typed_action, k_explicit_finish, k_traceback, k_log_call]  # the kinds that consult extractors
+    elif sh.get("only_kinds"):
         kinds = kinds[: int(sh["only_kinds"])] + [k_with_raise]
     k1 = kinds[ctx.choose(len(kinds), "first call")]
     inner = None
@@ -384,6 +395,8 @@ def _e1_shards(tier):
             out += [dict(base, prefix=p) for p in enumerate_prefixes(body_E1, "X", {}, base, 1)]
         for mt in (1, 2, 3, 4):
             out.append({"calls": 1, "F": 2, "flaky_first": 1, "fault_exc": 0, "errcls": 0, "mtype": mt, "only_kinds": 2})
+        base = {"calls": 1, "F": 3, "flaky_first": 1, "fault_exc": 0, "errcls": 0, "xchain": 1, "only_kinds": 0}
+        out += [dict(base, prefix=p) for p in enumerate_prefixes(body_E1, "X", {}, base, 1)]
         return out
     for ff, fe in ((1, 0), (0, 1)):
         base = {"calls": 2, "F": 2, "flaky_first": ff, "fault_exc": fe}
@@ -408,7 +421,7 @@ OBLIGATIONS = [
         twin=[{"calls": 1, "F": 2, "flaky_first": 1, "twin_label": "two-faults"}],
         timeout={"quick": 100, "thorough": 1500},
         path_timeout=60,
-        bounds={"quick": "one entry-point kind (each makes 1-4 logging calls) x 12 values x <= 2 injected faults at solver-chosen fault points, flaky destination before/after the real FileDestination; log_message / Action.log with a message type that is an enum member, an int, None or bytes (12 values, <= 2 faults)", "thorough": "two kinds (second nested inside the first's action where it has one) x 12 values x <= 2 faults for two fault-exception/ordering configurations; one kind x <= 3 faults for all five"},
+        bounds={"quick": "one entry-point kind (each makes 1-4 logging calls) x 12 values x <= 2 injected faults at solver-chosen fault points, flaky destination before/after the real FileDestination; a chain of two extractors that may both fail (<= 3 faults); log_message / Action.log with a message type that is an enum member, an int, None or bytes (12 values, <= 2 faults)", "thorough": "two kinds (second nested inside the first's action where it has one) x 12 values x <= 2 faults for two fault-exception/ordering configurations; one kind x <= 3 faults for all five"},
     ),
     Ob("L1", L1, body_L1, "S", desc="safeunicode/saferepr/_safe_unicode_dictionary return str and never raise", functions=["safeunicode", "saferepr", "_safe_unicode_dictionary"], shards={"quick": [{"kind": "str"}, {"kind": "raising-dunders"}]}, twin=[{"kind": "str"}], timeout={"quick": 100, "thorough": 300}, bounds={"quick": "safeunicode on any str of length <= 4; all three helpers on objects whose __str__/__repr__ raise exceptions carrying any int"}),
 ]
